@@ -37,6 +37,21 @@
 
 #include "cmi_memutils.h"
 
+#if defined(CIMBA_VERIF) && defined(__SANITIZE_ADDRESS__)
+/*
+ * Verification hook (off by default): tell AddressSanitizer that objects
+ * sitting on a pool's free list are not to be touched, so that use-after-free
+ * inside pool chunks becomes visible to it.
+ */
+extern void __asan_poison_memory_region(void const volatile *addr, size_t size);
+extern void __asan_unpoison_memory_region(void const volatile *addr, size_t size);
+#define CMI_VERIF_POOL_POISON(p, sz) __asan_poison_memory_region((p), (sz))
+#define CMI_VERIF_POOL_UNPOISON(p, sz) __asan_unpoison_memory_region((p), (sz))
+#else
+#define CMI_VERIF_POOL_POISON(p, sz) ((void)0)
+#define CMI_VERIF_POOL_UNPOISON(p, sz) ((void)0)
+#endif
+
 /* Additional cookie value for the predefined memory pools */
 #define CMI_THREAD_STATIC 0x057A71C0057A71C0u
 
@@ -116,6 +131,7 @@ static inline void *cmi_mempool_alloc(struct cmi_mempool *mp)
 
     void *op = mp->next_obj;
     cmb_assert_debug(op != NULL);
+    CMI_VERIF_POOL_UNPOISON(op, mp->obj_sz);
     mp->next_obj = *(void **)op;
 
     return op;
@@ -132,6 +148,7 @@ static inline void cmi_mempool_free(struct cmi_mempool *mp, void *op)
 
     *(void **)op = mp->next_obj;
     mp->next_obj = op;
+    CMI_VERIF_POOL_POISON(op, mp->obj_sz);
 }
 
 /*
